@@ -31,7 +31,7 @@ Definition body_of (E : str -> kidsT -> res (kidsT * str)) (fuel : nat) :=
 
 Definition old_of (name : str) (kids : kidsT) : kidsT := match lookup name 3 kids with Some (VObj k) => k | _ => [] end.
 
-Definition entry_step (E : str -> kidsT -> res (kidsT * str)) (fuel f : nat) (top : bool) (s : str) (kids : kidsT)
+Definition entry_step (E : str -> kidsT -> res (kidsT * str)) (fuel f : nat) (d : nat) (s : str) (kids : kidsT)
   : res (kidsT * str) :=
   match pstring fuel s with
   | None => inr (kids, [])
@@ -43,12 +43,13 @@ Definition entry_step (E : str -> kidsT -> res (kidsT * str)) (fuel f : nat) (to
       if (nb c =? 40)%N then
         match plist fuel r1 [] with
         | inl e => inl e
-        | inr (items, r2) => tail_of fuel top (upsert name 2 (fun _ => VList items) kids) r2
+        | inr (items, r2) => tail_of fuel (Nat.eqb d 0) (upsert name 2 (fun _ => VList items) kids) r2
         end
       else if (nb c =? 123)%N then
+        if Nat.leb max_depth d then inl EDeep else
         match body_of E fuel f r1 (old_of name kids) with
         | inl e => inl e
-        | inr (ks, r2) => tail_of fuel top (upsert name 3 (fun _ => VObj ks) kids) r2
+        | inr (ks, r2) => tail_of fuel (Nat.eqb d 0) (upsert name 3 (fun _ => VObj ks) kids) r2
         end
       else
         match pstring fuel (c :: r1) with
@@ -59,23 +60,23 @@ Definition entry_step (E : str -> kidsT -> res (kidsT * str)) (fuel f : nat) (to
           | (None, _) => inl ESemi
           | (Some c2, r3) =>
             if (nb c2 =? 59)%N || (nb c2 =? 10)%N || (nb c2 =? 125)%N
-            then tail_of fuel top (upsert name 0 (fun _ => VStr v) kids) (c2 :: r3)
+            then tail_of fuel (Nat.eqb d 0) (upsert name 0 (fun _ => VStr v) kids) (c2 :: r3)
             else if (nb c2 =? 44)%N then
               match pcomma fuel r3 [v] with
               | inl e => inl e
-              | inr (items, r4) => tail_of fuel top (upsert name 2 (fun _ => VList items) kids) r4
+              | inr (items, r4) => tail_of fuel (Nat.eqb d 0) (upsert name 2 (fun _ => VList items) kids) r4
               end
             else match pstring fuel (c2 :: r3) with
                  | None => inl ESemi
                  | Some (inl e) => inl e
-                 | Some (inr (sv, r4)) => tail_of fuel top (upsert name 1 (fun _ => VIna (Some v) (Some sv)) kids) r4
+                 | Some (inr (sv, r4)) => tail_of fuel (Nat.eqb d 0) (upsert name 1 (fun _ => VIna (Some v) (Some sv)) kids) r4
                  end
           end
         end
     end
   end.
 
-Lemma entry_S f top s kids : entry (S f) top s kids = entry_step (entry f false) (S f) f top s kids.
+Lemma entry_S f d s kids : entry (S f) d s kids = entry_step (entry f (S d)) (S f) f d s kids.
 Proof. reflexivity. Qed.
 
 Lemma body_of_S E fuel fu r ks :
@@ -132,7 +133,7 @@ Lemma entries_S f s kids :
   entries (S f) s kids =
   match s with
   | [] => inr kids
-  | _ => match entry (S f) true s kids with inl e => inl e | inr (k', r) => entries f r k' end
+  | _ => match entry (S f) 0 s kids with inl e => inl e | inr (k', r) => entries f r k' end
   end.
 Proof. reflexivity. Qed.
 
@@ -302,8 +303,8 @@ Ltac facts2 :=
   | H : tail_of _ _ _ _ = inr (_, _) |- _ => apply tail_of_inv in H; destruct H as [_ H]
   end.
 
-Lemma entry_step_suffix E fuel f top s kids k' r :
-  Elen E -> entry_step E fuel f top s kids = inr (k', r) -> length r <= length s - 1.
+Lemma entry_step_suffix E fuel f d s kids k' r :
+  Elen E -> entry_step E fuel f d s kids = inr (k', r) -> length r <= length s - 1.
 Proof.
   intros HE H. unfold entry_step in H.
   repeat dmatch H; try discriminate;
@@ -313,9 +314,9 @@ Proof.
 Qed.
 
 (* a successful entry consumes at least one byte (or the input was already empty) *)
-Theorem entry_suffix fuel : forall top s kids k' r, entry fuel top s kids = inr (k', r) -> length r <= length s - 1.
+Theorem entry_suffix fuel : forall d s kids k' r, entry fuel d s kids = inr (k', r) -> length r <= length s - 1.
 Proof.
-  induction fuel as [|f IH]; intros top s kids k' r H; [discriminate|].
+  induction fuel as [|f IH]; intros d s kids k' r H; [discriminate|].
   rewrite entry_S in H. eapply entry_step_suffix; [|eassumption].
   intros s0 ks ks' r0 H0. eapply IH; eassumption.
 Qed.
@@ -349,11 +350,11 @@ Proof.
   - revert H. match goal with X : E _ _ = inr _ |- _ => apply HE in X end. facts. cbn [length] in *. apply IH; lia.
 Qed.
 
-Theorem entry_nofuel fuel : forall top s kids, length s < fuel -> entry fuel top s kids <> inl EFuel.
+Theorem entry_nofuel fuel : forall d s kids, length s < fuel -> entry fuel d s kids <> inl EFuel.
 Proof.
-  induction fuel as [|f IH]; intros top s kids Hl H; [lia|].
+  induction fuel as [|f IH]; intros d s kids Hl H; [lia|].
   rewrite entry_S in H. unfold entry_step in H.
-  assert (HE : Elen (entry f false)) by (intros s0 ks ks' r0 H0; eapply entry_suffix; eassumption).
+  assert (HE : Elen (entry f (S d))) by (intros s0 ks ks' r0 H0; eapply entry_suffix; eassumption).
   repeat dmatch H; try discriminate;
     try (inversion H; subst; eapply pstring_nofuel; eassumption);
     try (eapply tail_of_nofuel; eassumption).
@@ -368,7 +369,7 @@ Theorem entries_nofuel fuel : forall s kids, length s < fuel -> entries fuel s k
 Proof.
   induction fuel as [|f IH]; intros s kids Hl H; [lia|].
   rewrite entries_S in H. destruct s as [|c s]; [discriminate|].
-  destruct (entry (S f) true (c :: s) kids) as [e|[k' r]] eqn:E.
+  destruct (entry (S f) 0 (c :: s) kids) as [e|[k' r]] eqn:E.
   - inversion H; subst. revert E. apply entry_nofuel. exact Hl.
   - apply entry_suffix in E. revert H. apply IH. cbn [length] in *. lia.
 Qed.
@@ -446,11 +447,11 @@ Proof.
   apply IH; lia.
 Qed.
 
-Theorem entry_fuel : forall f1 f2 top s kids, length s < f1 -> length s < f2 -> entry f1 top s kids = entry f2 top s kids.
+Theorem entry_fuel : forall f1 f2 d s kids, length s < f1 -> length s < f2 -> entry f1 d s kids = entry f2 d s kids.
 Proof.
-  induction f1 as [|f1 IH]; intros f2 top s kids H1 H2; [lia|]. destruct f2 as [|f2]; [lia|].
+  induction f1 as [|f1 IH]; intros f2 d s kids H1 H2; [lia|]. destruct f2 as [|f2]; [lia|].
   rewrite !entry_S. unfold entry_step.
-  assert (HE : Elen (entry f2 false)) by (intros s0 ks ks' r0 H0; eapply entry_suffix; eassumption).
+  assert (HE : Elen (entry f2 (S d))) by (intros s0 ks ks' r0 H0; eapply entry_suffix; eassumption).
   rewrite (pstring_fuel (S f1) (S f2) s H1 H2).
   destruct (pstring (S f2) s) as [[e|[name r0]]|] eqn:P; try reflexivity. apply pstring_suffix in P.
   rewrite (ws_fuel false (S f1) (S f2) r0) by lia.
@@ -460,8 +461,9 @@ Proof.
     destruct (plist (S f2) r1 []) as [e|[items r2]] eqn:L; [reflexivity|]. apply plist_suffix in L.
     apply tail_of_fuel; lia. }
   destruct (nb c =? 123)%N.
-  { rewrite (body_of_fuel (entry f1 false) (entry f2 false) (S f1) (S f2) (length s - 2) HE) with (fu2 := f2); try lia.
-    - destruct (body_of (entry f2 false) (S f2) f2 r1 (old_of name kids)) as [e|[ks r2]] eqn:B; [reflexivity|].
+  { destruct (Nat.leb max_depth d); [reflexivity|].
+    rewrite (body_of_fuel (entry f1 (S d)) (entry f2 (S d)) (S f1) (S f2) (length s - 2) HE) with (fu2 := f2); try lia.
+    - destruct (body_of (entry f2 (S d)) (S f2) f2 r1 (old_of name kids)) as [e|[ks r2]] eqn:B; [reflexivity|].
       apply (body_of_suffix _ _ HE) in B. apply tail_of_fuel; lia.
     - intros s0 ks Hs0. apply IH; lia. }
   rewrite (pstring_fuel (S f1) (S f2) (c :: r1)) by (cbn [length]; lia).
@@ -483,8 +485,8 @@ Theorem entries_fuel : forall f1 f2 s kids, length s < f1 -> length s < f2 -> en
 Proof.
   induction f1 as [|f1 IH]; intros f2 s kids H1 H2; [lia|]. destruct f2 as [|f2]; [lia|].
   rewrite !entries_S. destruct s as [|c s]; [reflexivity|].
-  rewrite (entry_fuel (S f1) (S f2) true (c :: s) kids H1 H2).
-  destruct (entry (S f2) true (c :: s) kids) as [e|[k' r]] eqn:E; [reflexivity|].
+  rewrite (entry_fuel (S f1) (S f2) 0 (c :: s) kids H1 H2).
+  destruct (entry (S f2) 0 (c :: s) kids) as [e|[k' r]] eqn:E; [reflexivity|].
   apply entry_suffix in E. cbn [length] in *. apply IH; lia.
 Qed.
 
@@ -666,11 +668,11 @@ Proof.
   - eapply IH; [|exact H]. eapply HE; eassumption.
 Qed.
 
-Theorem entry_sorted fuel : forall top s kids k' r, tsorted kids -> entry fuel top s kids = inr (k', r) -> tsorted k'.
+Theorem entry_sorted fuel : forall d s kids k' r, tsorted kids -> entry fuel d s kids = inr (k', r) -> tsorted k'.
 Proof.
-  induction fuel as [|f IH]; intros top s kids k' r Hs H; [discriminate|].
+  induction fuel as [|f IH]; intros d s kids k' r Hs H; [discriminate|].
   rewrite entry_S in H. unfold entry_step in H.
-  assert (HE : Esorted (entry f false)) by (intros s0 ks ks' r0 Hks H0; eapply IH; eassumption).
+  assert (HE : Esorted (entry f (S d))) by (intros s0 ks ks' r0 Hks H0; eapply IH; eassumption).
   repeat dmatch H; try discriminate;
     try (inversion H; subst; exact Hs);
     apply tail_of_inv in H; destruct H as [-> _];
@@ -682,7 +684,7 @@ Theorem entries_sorted fuel : forall s kids k', tsorted kids -> entries fuel s k
 Proof.
   induction fuel as [|f IH]; intros s kids k' Hs H; [discriminate|].
   rewrite entries_S in H. destruct s as [|c s]; [inversion H; subst; exact Hs|].
-  destruct (entry (S f) true (c :: s) kids) as [e|[k1 r]] eqn:E; [discriminate|].
+  destruct (entry (S f) 0 (c :: s) kids) as [e|[k1 r]] eqn:E; [discriminate|].
   eapply IH; [|exact H]. eapply entry_sorted; eassumption.
 Qed.
 
